@@ -317,4 +317,11 @@ theorem correctMiner_cases (n : Nat) (special : Bool) (pr : Option Nat) (T mt : 
       simp only [hd', hn0, if_false, Bool.false_eq_true]
       exact ⟨_, rfl⟩
 
+theorem correctMiner_of_gcm_err {n : Nat} {special : Bool} {pr : Option Nat} {pts ph : Nat} {mt T : Int} {e : String}
+    (h : GetCorrectMiner (mineTime := mt) (mineTimeout := T) (parent_Time := pts) (nodeCount := (n : Int))
+      (parent_Height := ph) (parent_MinerAddress := 0) = .err e) :
+    correctMiner n special pr pts ph mt T = .err e := by
+  unfold correctMiner
+  rw [h]
+
 end LemoProofs.ValidatorLemmas
